@@ -1802,11 +1802,12 @@ MANIFEST = {
                   "C14_unconvertible_atoms); the catalogue texts are pairwise distinct. Tie: catalogue, emitted "
                   "identifiers, guard structure of every check function and the statements of the verdict helpers are "
                   "regenerated from the AST and compared by named theorems (C14_emits_*, C14_shape_*); the CONDITIONS "
-                  "of all report sites but one per tag function (the call of the verdict helper) are compiled from the "
-                  "AST into an expression language with Python's truthiness / and / or / is None / comparison / len / "
-                  "generator semantics (Pure/PyGuard.lean) and proved, for all values the reads can return, to compute "
-                  "exactly the model's message lists (C14_guards_entity/file/property/feature/range/sampled/array/tag/"
-                  "multi_tag; coverage and locals pinned by C14_guards_opaque/cover/locals); exact differential runs on "
+                  "of all 37 report sites are compiled from the AST into an expression language with Python's "
+                  "truthiness / and / or / is None / comparison / len / generator semantics (Pure/PyGuard.lean; the "
+                  "verdict helper tag_units_match_refs_units inlined at its calls, get_dim_units compiled as a "
+                  "collecting loop) and proved, for all values the reads can return, to compute exactly the model's "
+                  "message lists (C14_guards_entity/file/property/feature/range/sampled/array/tag/multi_tag/"
+                  "get_dim_units; coverage and locals pinned by C14_guards_opaque/cover/locals); exact differential runs on "
                   "real HDF5 files (well-formed files incl. boundary values of every presence-tested field, single / "
                   "pairwise / subset injections, multi-reference cases, unit sweeps over the complete SI tables), and "
                   "per object the compiled conditions under the Lean semantics against the same AST nodes run by the "
@@ -1817,8 +1818,9 @@ MANIFEST = {
                   "statement refuted (C14_complete_NoID_counterexample), partial theorem under the UUID hypothesis, "
                   "open known finding (missing id). Repaired in /repo: missing date (d015b28), position/extent mismatch "
                   "without references (961745b), missing positions link (b01e565), file dated at the epoch reported as "
-                  "undated / missing file date raised KeyError (5bc8e32). The site `not tag_units_match_refs_units(..)` "
-                  "is tied by the statements of the helper only (C14_shape_helpers). C14_unit_pair_atoms covers powers "
+                  "undated / missing file date raised KeyError (5bc8e32). In C14_guards_* the locals (refs_units, posdim, "
+                  "extdim, positions, file_created_at) are environment values whose assignments are pinned as text "
+                  "(C14_guards_locals). C14_unit_pair_atoms covers powers "
                   "^-3..^3 (the C09 atom table). Trusted: Lean kernel; axioms propext/Classical.choice/Quot.sound; the "
                   "catalogue, guards and units translators; the harness builder/walker/parser and the oracle's SI table "
                   "(harness/props/c14_units.py).",
